@@ -658,12 +658,15 @@ func (st *AclState) applyRequestAccept(ch *aclrecordproto.AclAccountRequestAccep
 	if err != nil {
 		return err
 	}
-	requestRecord, _ := st.requestRecords[ch.RequestRecordId]
+	requestRecord, exists := st.requestRecords[ch.RequestRecordId]
+	if !exists {
+		return ErrNoSuchRequest
+	}
 	pKeyString := mapKeyFromPubKey(acceptIdentity)
-	state, exists := st.accountStates[pKeyString]
+	state, stateExists := st.accountStates[pKeyString]
 	permissions := AclPermissions(ch.Permissions)
 	permissionChanges := []PermissionChange{{Permission: permissions, RecordId: record.Id}}
-	if exists {
+	if stateExists {
 		permissionChanges = append(state.PermissionChanges, permissionChanges[0])
 	}
 
@@ -787,7 +790,11 @@ func (st *AclState) applyRequestDecline(ch *aclrecordproto.AclAccountRequestDecl
 	if err != nil {
 		return err
 	}
-	pk := mapKeyFromPubKey(st.requestRecords[ch.RequestRecordId].RequestIdentity)
+	requestRecord, exists := st.requestRecords[ch.RequestRecordId]
+	if !exists {
+		return ErrNoSuchRequest
+	}
+	pk := mapKeyFromPubKey(requestRecord.RequestIdentity)
 	accSt, exists := st.accountStates[pk]
 	if !exists {
 		return ErrNoSuchAccount
@@ -804,7 +811,11 @@ func (st *AclState) applyRequestCancel(ch *aclrecordproto.AclAccountRequestCance
 	if err != nil {
 		return err
 	}
-	pk := mapKeyFromPubKey(st.requestRecords[ch.RecordId].RequestIdentity)
+	requestRecord, exists := st.requestRecords[ch.RecordId]
+	if !exists {
+		return ErrNoSuchRequest
+	}
+	pk := mapKeyFromPubKey(requestRecord.RequestIdentity)
 	accSt, exists := st.accountStates[pk]
 	if !exists {
 		return ErrNoSuchAccount
